@@ -27,7 +27,7 @@ func init() {
 		"The end-to-end row set needs evaluation of predicates on values; duplicates from repeated/overlapping IN literals and literal-on-the-left comparisons are not structurally decidable (DESIGN.md §6).")
 	propTable["C01"].KeyFilter["NOROWDROP"] = keyHas("ScanPlan", "MultiGetPlan", "ProjectionPlan")
 
-	prop("C02", []string{"PLANMAP", "ROUTE", "NARROWONLYKEY", "SELECTMINMAX", "ROLECHAIN", "FILTERED", "RMGUARD", "NOROWDROP", "GETNIL"},
+	prop("C02", []string{"PLANMAP", "ROUTE", "NARROWONLYKEY", "SELECTMINMAX", "ROLECHAIN", "FILTERED", "RMGUARD", "NOROWDROP", "GETNIL", "RANGEALG"},
 		"Structural necessary conditions of C02: ROUTE (an operator reaches only the region handler its executor semantics justify; anything else is FULL), NARROWONLYKEY (a narrowing region only for atoms on `key`, with bounds taken from the atom's literals), SELECTMINMAX (OR falls back to the wider operand), PLANMAP (scan kinds map to the matching plan, ill-formed cases to the full scan, and the access path is not replaced afterwards), ROLECHAIN (start/end/prefix reach Seek and the stop tests in the right roles, inclusive end, nil-guarded), FILTERED (over-approximated regions are harmless because every pair is filtered), RMGUARD (DELETE drops the filter only for pure key sets), NOROWDROP/GETNIL (no consumed row or empty-valued pair is lost on the narrowed paths).",
 		"The interval case analysis of union*/intersection*/inRange and the side of the literal ('b' > key) depend on order relations among literals (DESIGN.md §6).")
 	propTable["C02"].KeyFilter["SELECTMINMAX"] = keyHas("|OR|")
@@ -111,11 +111,13 @@ func init() {
 	propTable["C17"].KeyFilter["OP2TABLE"] = keyHas("|query|", "|pos")
 	propTable["C17"].KeyFilter["USERIDX"] = keyHas("outputQueryAndErrPos")
 
-	prop("C18", []string{"PLANMAP", "MUTSITE", "SELECTMINMAX", "ROLECHAIN", "NOREADAFTEREXIT", "NARROWONLYKEY", "ROUTE"},
+	prop("C18", []string{"PLANMAP", "MUTSITE", "SELECTMINMAX", "ROLECHAIN", "NOREADAFTEREXIT", "NARROWONLYKEY", "ROUTE", "RANGEALG"},
 		"Structural necessary conditions of C18: PLANMAP (EMPTY reads nothing, MGET uses point reads only and all keys, PREFIX/RANGE use the matching cursor plan, and the chosen access path is not replaced later), MUTSITE(e) (the point-read plan calls only Get, the empty plan nothing), SELECTMINMAX(AND) (a conjunction falls back to the narrower operand), ROLECHAIN (seek to the region start, stop at the first key beyond the inclusive end / without the prefix), NOREADAFTEREXIT (no further cursor read after the region was left), ROUTE/NARROWONLYKEY (equality and IN produce point regions).",
 		"That intersection* returns a region inside both operands depends on order relations among literals (DESIGN.md §6).")
 	propTable["C18"].KeyFilter["MUTSITE"] = keyHas("MUTSITE|e|")
 	propTable["C18"].KeyFilter["SELECTMINMAX"] = keyHas("|AND|")
+	propTable["C18"].KeyFilter["RANGEALG"] = keyHas("|tight", "|interpretable")
+	propTable["C02"].KeyFilter["RANGEALG"] = keyHas("|sound", "|interpretable")
 
 	prop("C19", []string{"GLOBALS"},
 		"Structural necessary condition of C19 (absence of shared mutable library state): GLOBALS enumerates every package-level variable and shows that no function outside the package initializer and the registration API stores to one, updates or deletes in a map reachable from one, passes one by address to a call, or stores through a shared registry row; NOREFLECT shows the library starts no goroutine and uses no unsafe. Every statement's AST, plan and ExecuteCtx are allocated by its own NewOptimizer/NewExecuteCtx calls, so statements share only read-only tables and the caller's Storage.",
